@@ -136,6 +136,7 @@ Arith(op, a, b) ==
     ELSE IF op = "+" /\ IsColl(a) /\ IsColl(b) THEN L(a[2] \o b[2])
     ELSE IF op = "+" /\ IsDict(a) /\ IsDict(b) THEN <<"d", DSetMany(a[2], b[2])>>
     ELSE IF op = "+" /\ IsStr(a) /\ IsStr(b) THEN <<"s", a[2] \o b[2]>>
+    ELSE IF IsStr(a) \/ IsStr(b) THEN <<"e", "unmodelled">>            \* string repetition etc.: Scalars.tla / Strings.tla
     ELSE IF op = "*" /\ IsList(a) /\ b[1] = "i" THEN L(RepeatL(a[2], b[2]))
     ELSE IF op = "*" /\ IsList(b) /\ a[1] = "i" THEN L(RepeatL(b[2], a[2]))
     ELSE ErrV
@@ -650,5 +651,6 @@ Fin(v, log) ==
                                      ELSE LET x == Fin(Head(xs), lg) IN IF IsErr(x.v) THEN x ELSE Each(Tail(xs), x.log, Append(acc, x.v))
             IN Each(f.v[2], f.log, <<>>)
        ELSE f
-Run(ast, data) == LET r == Eval(ast, <<<<<<"1", data>>>>>>, <<>>) IN IF IsErr(r.v) THEN r ELSE Fin(r.v, r.log)
+\* the document is bound to `$` and, for expressions that need it inside lambdas, to `$doc`
+Run(ast, data) == LET r == Eval(ast, <<<<<<"1", data>>, <<"doc", data>>>>>>, <<>>) IN IF IsErr(r.v) THEN r ELSE Fin(r.v, r.log)
 =============================================================================
